@@ -1,6 +1,8 @@
 package checker
 
 import (
+	"sort"
+
 	"github.com/jsightapi/jsight-schema-core/bytes"
 	"github.com/jsightapi/jsight-schema-core/errs"
 	"github.com/jsightapi/jsight-schema-core/json"
@@ -34,8 +36,17 @@ func CheckRootSchema(rootSchema *ischema.ISchema) {
 		c.checkNode(rootSchema.RootNode(), rootSchema.TypesList())
 	}
 
-	for name, typ := range rootSchema.TypesList() {
-		c.checkType(name, typ, rootSchema.TypesList())
+	// The types are checked in the alphabetical order to report the same error
+	// every time if several types are incorrect.
+	types := rootSchema.TypesList()
+	names := make([]string, 0, len(types))
+	for name := range types {
+		names = append(names, name)
+	}
+	sort.Strings(names)
+
+	for _, name := range names {
+		c.checkType(name, types[name], types)
 	}
 }
 
